@@ -337,6 +337,18 @@ Definition parse_section (tbl : list slot) (sanity : sec -> bool) (bs : bytes) :
         (fun sr => if sanity (fst sr) then ROk sr else RErr).
 
 (* ----- emission: getKeyPairs ----- *)
+(* the entries a multi-valued field writes.  Slices are written as they are.  The four pre-image
+   maps are written by `for k, v := range m { ... KeyData: k[:] ... }`: /repo's go.mod says go 1.17,
+   so `k` is ONE array variable shared by all iterations and every key pair built in the loop
+   aliases it; when getKeyPairs returns they all carry the key of the last entry iterated. *)
+Definition m_emit (m : mkind) (l : list mentry) : list mentry :=
+  match m with
+  | MMap _ => match rev l with
+              | [] => []
+              | last :: _ => map (fun e => (fst last, snd e)) l
+              end
+  | _ => l
+  end.
 Definition mk_kp_id (key : keyid) (kd v : bytes) : kpair :=
   match key with
   | KStd t => mk_kpair t kd v
@@ -350,7 +362,7 @@ Definition emit_slot (i : nat) (sl : slot) (s : sec) : cres (list kpair) :=
       if s_emits k al b then
         if s_panics k b then RPanic else ROk [mk_kp_id (sl_ekey sl) [] (s_emit k b)]
       else ROk []
-  | MS _ => ROk (map (fun e => mk_kp_id (sl_ekey sl) (fst e) (snd e)) (list_at i s))
+  | MS m => ROk (map (fun e => mk_kp_id (sl_ekey sl) (fst e) (snd e)) (m_emit m (list_at i s)))
   end.
 
 Fixpoint emit_slots (i : nat) (tbl : list slot) (s : sec) : cres (list kpair) :=
@@ -623,9 +635,9 @@ Fixpoint m_replay (m : mkind) (acc : list mentry) (todo : list mentry) : cres (l
   | [] => ROk acc
   | e :: r => cbind (m_step m (fst e) (snd e) acc) (fun acc' => m_replay m acc' r)
   end.
-(* a multi-valued field is representable iff replaying it through its decoder rebuilds it *)
+(* a multi-valued field is representable iff replaying what it writes through its decoder rebuilds it *)
 Definition m_wf (m : mkind) (l : list mentry) : bool :=
-  match m_replay m [] l with ROk l' => entries_eqb l' l | _ => false end.
+  match m_replay m [] (m_emit m l) with ROk l' => entries_eqb l' l | _ => false end.
 
 (* framing limits of one key pair: key length guard and 64-bit lengths *)
 Definition frame_ok (k : kpair) : bool :=
@@ -639,7 +651,7 @@ Definition slot_wf (i : nat) (sl : slot) (s : sec) : bool :=
   | MS m =>
       (match val_at i s with [] => true | _ => false end) && m_wf m (list_at i s) &&
       keyid_eqb (sl_ekey sl) (sl_dkey sl) &&
-      forallb (fun e => frame_ok (mk_kp_id (sl_ekey sl) (fst e) (snd e))) (list_at i s)
+      forallb (fun e => frame_ok (mk_kp_id (sl_ekey sl) (fst e) (snd e))) (m_emit m (list_at i s))
   end.
 Fixpoint slots_wf (i : nat) (tbl : list slot) (s : sec) : bool :=
   match tbl with
